@@ -83,14 +83,22 @@ def catch_up(src, n=2, evaluations=3):
 
 @rigged
 def recovery(src, n=2, faults=1, delays=0, rounds=6, closing=12, configs=('LIST+TIMEOUT', 'CORE'),
-             fences=(False, True), failures=('CONTINUE',)):
+             fences=(False, True), failures=('CONTINUE',), split_brain=0):
     """H08c: after a solver-chosen disturbance and a bounded number of quiet rounds every live, mutually reachable,
     non-isolated instance is in the state of its Master - OPERATION (CONCILIATION with the USER strategy and a
     conflict) - with no start / stop job pending"""
     from harness import cluster_common as CC
-    cl, cfg, plan, senders, traces = CC.run_schedule(src, n=n, rounds=rounds, closing=closing, faults=faults,
-                                                     delays=delays, configs=configs, fences=fences, failures=failures)
-    sig = '+'.join(k[0] for _, _, k in plan) or 'none'
+    if split_brain:
+        # a partition of 1..split_brain rounds (each side keeps or elects its Master) that heals
+        cl, cfg, plan, senders, traces = CC.run_schedule(src, n=n, rounds=4 + split_brain, closing=closing,
+                                                         configs=configs, fences=fences, failures=failures,
+                                                         plan_fn=CC.split_brain_plan(n, split_brain))
+        sig = f'partition-of-{plan[1][0] - plan[0][0]}-rounds-then-heal'
+    else:
+        cl, cfg, plan, senders, traces = CC.run_schedule(src, n=n, rounds=rounds, closing=closing, faults=faults,
+                                                         delays=delays, configs=configs, fences=fences,
+                                                         failures=failures)
+        sig = '+'.join(k[0] for _, _, k in plan) or 'none'
     for g in CC.groups(cl):
         if 'TIMEOUT' not in cfg['synchro_options'] and len(g) < n:
             continue        # the configured synchronization condition cannot be met (excluded by the statement)
@@ -168,6 +176,9 @@ HARNESSES = [
     Harness('H08c', recovery, quick={'n': 2, 'faults': 1, 'delays': 0},
             thorough={'n': 3, 'faults': 2, 'delays': 0}, reach=('quiescent',), timeout=(150, 1800),
             doc='return to OPERATION after a solver-chosen disturbance of a real cluster'),
+    Harness('H08c-split', recovery, quick={'n': 2, 'split_brain': 8}, thorough={'n': 3, 'split_brain': 8},
+            reach=('quiescent',), timeout=(150, 1500),
+            doc='return to OPERATION after a split brain (partition of 1..8 rounds, then heal)'),
     Harness('H08c-resync', recovery, quick={'n': 2, 'faults': 1, 'delays': 0, 'failures': ('RESYNC',),
                                             'configs': ('LIST+TIMEOUT',), 'fences': (False,)},
             thorough=None, reach=('quiescent',), timeout=(100, 0), doc='same with supvisors_failure_strategy RESYNC'),
